@@ -257,7 +257,7 @@ Proof.
   rewrite IH, Hv. destruct (cyc_last k r); destruct (N.eqb_spec k' k); reflexivity.
 Qed.
 
-Lemma scalar_kind x : (match x with KHist _ | KExpo _ => False | _ => True end) -> forall v, vecof x v = [v].
+Lemma scalar_kind x : (match x with KHist _ | KExpo _ | KHistNS _ => False | _ => True end) -> forall v, vecof x v = [v].
 Proof. destruct x; intros H v; try reflexivity; contradiction. Qed.
 
 (** clause 3 *)
